@@ -548,6 +548,55 @@ func ruleLockHandle(p *Prog, r *Report, caller *ssa.Function, site ssa.CallInstr
 						if u, ok := r2.(*ssa.UnOp); ok && u.Op == token.MUL {
 							visit(u, depth+1)
 						}
+						// `defer func() { fh.Close() }()`: a closure over the variable that
+						// only closes (and nil-tests) the handle and is itself only deferred
+						if mc, ok := r2.(*ssa.MakeClosure); ok {
+							g := mc.Fn.(*ssa.Function)
+							closes, other := 0, ""
+							for i, b := range mc.Bindings {
+								if b != ssa.Value(al) {
+									continue
+								}
+								for _, r3 := range *g.FreeVars[i].Referrers() {
+									ld, ok := r3.(*ssa.UnOp)
+									if !ok {
+										other = "closure " + shortName(g) + " writes or passes on the variable"
+										continue
+									}
+									for _, r4 := range *ld.Referrers() {
+										switch y := r4.(type) {
+										case *ssa.Call:
+											if f := y.Common().StaticCallee(); f != nil && shortName(f) == "(*os.File).Close" {
+												closes++
+											} else {
+												other = "closure " + shortName(g) + " passes the handle to " + (&callSite{In: y, Static: y.Common().StaticCallee()}).calleeName()
+											}
+										case *ssa.BinOp, *ssa.DebugRef:
+										default:
+											other = "closure " + shortName(g) + " uses the handle otherwise"
+										}
+									}
+								}
+							}
+							onlyDeferred := mc.Referrers() != nil && len(*mc.Referrers()) > 0
+							for _, r3 := range *mc.Referrers() {
+								if d, ok := r3.(*ssa.Defer); !ok || d.Common().Value != ssa.Value(mc) {
+									if _, dbg := r3.(*ssa.DebugRef); !dbg {
+										onlyDeferred = false
+									}
+								}
+							}
+							switch {
+							case other != "":
+								escapes = append(escapes, other)
+							case closes > 0 && onlyDeferred:
+								deferred++
+							case closes > 0:
+								escapes = append(escapes, "closed by closure "+shortName(g)+" that is not (only) deferred")
+							default:
+								escapes = append(escapes, "captured by closure "+shortName(g))
+							}
+						}
 					}
 				}
 			}
